@@ -10,6 +10,7 @@
 //	R3 for k, v := range <map>              -> iteration over simrt.Keys(map, site)
 //	R4 net.Dial, net.ListenTCP, net.TCPConn, http.ListenAndServe -> simrt equivalents
 //	R5 selected package-level variables     -> *simrt.NodeVar(key, &X)
+//	R8 time.Sleep / time.After / time.NewTicker -> simrt equivalents (tracked, stoppable)
 //	R6 error-inject/default.go              -> hooks calling simrt.Hook
 //	R7 app: RegisterFrontend helper
 //
@@ -49,7 +50,7 @@ func die(format string, a ...interface{}) {
 }
 
 type stats struct {
-	mutex, gostmt, maprange, net, nodevar int
+	mutex, gostmt, maprange, net, nodevar, timer int
 }
 
 func main() {
@@ -139,8 +140,8 @@ func main() {
 	if err := os.WriteFile(filepath.Join(dir, "go.mod"), gm, 0644); err != nil {
 		die("go.mod: %v", err)
 	}
-	fmt.Printf("instrument: mutex=%d go=%d maprange=%d net=%d nodevar=%d\n", st.mutex, st.gostmt, st.maprange, st.net, st.nodevar)
-	if st.mutex < 10 || st.gostmt < 20 || st.maprange < 25 || st.net < 5 || st.nodevar < 15 {
+	fmt.Printf("instrument: mutex=%d go=%d maprange=%d net=%d nodevar=%d timer=%d\n", st.mutex, st.gostmt, st.maprange, st.net, st.nodevar, st.timer)
+	if st.timer < 50 || st.mutex < 10 || st.gostmt < 20 || st.maprange < 25 || st.net < 5 || st.nodevar < 15 {
 		die("suspiciously few rewrite sites; refusing to continue")
 	}
 }
@@ -219,6 +220,16 @@ func rewriteFile(fset *token.FileSet, p *packages.Package, f *ast.File, rel stri
 					st.net++
 					changed = true
 					return false
+				}
+			case "time":
+				if n.Sel.Name == "Sleep" || n.Sel.Name == "After" || n.Sel.Name == "NewTicker" {
+					c.Replace(sel(n.Sel.Name))
+					st.timer++
+					changed = true
+					return false
+				}
+				if n.Sel.Name == "NewTimer" || n.Sel.Name == "Tick" || n.Sel.Name == "AfterFunc" {
+					die("%s: time.%s is not handled by R8", fset.Position(n.Pos()), n.Sel.Name)
 				}
 			case "net/http":
 				if n.Sel.Name == "ListenAndServe" {
@@ -369,7 +380,7 @@ func rewriteFile(fset *token.FileSet, p *packages.Package, f *ast.File, rel stri
 	if needSimrt {
 		astutil.AddImport(fset, f, simrtPath)
 	}
-	for _, imp := range []string{"sync", "net", "net/http"} {
+	for _, imp := range []string{"sync", "net", "net/http", "time"} {
 		if !usesImport(f, imp) {
 			astutil.DeleteImport(fset, f, imp)
 		}
